@@ -11,6 +11,7 @@ from .units import k_replay
 from .units import l3run
 from .units.d import UnitD
 from .units import d_replay
+from .units import m_replay
 from .units.f import UnitF
 from .units import r_replay
 
@@ -420,6 +421,21 @@ def kani_extra_for(harnesses, label):
     return extra
 
 
+
+def c19_witness(pid, fails, repo):
+    if getattr(fails[0], 'witness', None):
+        return {'found': bool(fails[0].witness.get('kani_concrete_playback')), 'input': fails[0].witness}
+    res = m_replay.search(repo)
+    out = {'found': bool(res['anomalies']), 'probe_values_run_on_real_code': res['probe_values']}
+    if res['anomalies']:
+        out['input'] = res['anomalies'][0]
+        out['more'] = res['anomalies'][1:5]
+    if res.get('error'):
+        out['error'] = res['error'][-600:]
+    return out
+
+
+PROPS['C19']['witness'] = c19_witness
 PROPS['C06']['extra'] = kani_extra_for(['c06_' + t for t in ('i8', 'u8', 'i16', 'u16', 'i32', 'u32', 'i64', 'u64')], 'ok-iff-facets-hold')
 PROPS['C19']['extra'] = kani_extra_for(['c19_clone_shares'], 'clone-shares-the-allocation')
 
